@@ -595,6 +595,21 @@ def scen_todir(rng):
         _fn('f1', [['w', None]]),
     ]
     funcs.append(_fn('rootfail', funcs[0]['stmts'] + [['raise', 99]]))
+    if rng.random() < 0.3:
+        # the replaced output is not built any more, a sibling in the same directory still is; later the user's
+        # directory goes away again: the directory they share has changed hands and clean must leave it alone
+        out3 = '%s/%s' % (d, rng.choice([n for n in NAMES if d + '/' + n != out1] + ['z']))
+        funcs[0] = _fn('f0', [['if', ['arg', _e(0)], [_bf(out1, 1, catch=True, cmp_=rng.choice('MH')), _bf(out3, 1, arg=1, catch=True)],
+                               [_bf(out3, 1, arg=1, catch=True)]]] + _probe(rng, [d, out1, out3, ''], 2))
+        funcs[2] = _fn('rootfail', funcs[0]['stmts'] + [['raise', 99]])
+        steps = [_build(arg=0), ['mut', 'todir', out1, None, None]]
+        if rng.random() < 0.5:
+            steps.append(['mut', 'write', out1 + '/inside', 'u', 6200])
+        steps += [_build(arg=1)]
+        if rng.random() < 0.3:
+            steps += [_build(arg=1)]
+        steps += [['mut', 'rmtree', out1, None, None], rng.choice([['clean', 'n'], ['clean', None], _build(arg=1)]), ['clean', 'n']]
+        return {'tree': [], 'funcs': funcs, 'steps': steps}
     steps = [_build()]
     how = rng.choice(['empty_dir', 'dir_with_file', 'parent_to_file', 'both'])
     if how in ('empty_dir', 'both'):
